@@ -207,7 +207,10 @@ def os_roundtrip_obs(prefix):
 
 
 def c11():
-    return os_roundtrip_obs("C11") + [
+    return os_roundtrip_obs("C11") + [ar_ob("C11.abandon_os.len%d_t%d" % (ln, tg), "h_abandon_os", defines=["LISTLEN=%d" % ln, "TARGET=%d" % tg], replace=LOCK_REPL, cost=20,
+                                            funcs=["mi_arena_segment_os_clear_abandoned", "mi_arena_segment_os_mark_abandoned"],
+                                            bounds="abandoned OS segments stay reclaimable (so they can be freed): list of %d, entry %d" % (ln, tg)) for ln, tg in ((1, 0), (2, 1), (3, 1))] + [
+        arena_free_ob("C11"),
         os_ob("C11.good_alloc_size", "h_good_alloc_size", funcs=["_mi_os_good_alloc_size"], bounds="all sizes <= PTRDIFF_MAX", cost=10)]
 
 
@@ -325,7 +328,7 @@ def arena_alloc_ob(prefix):
 
 
 def c18():
-    return arena_expiry_ob("C18") + [arena_free_ob("C18"),
+    return arena_expiry_ob("C18") + seg_obs("C18", ["next_run"]) + [arena_free_ob("C18"),
             os_ob("C18.os_purge", "h_purge", funcs=["_mi_os_purge_ex", "mi_os_decommit_ex", "_mi_os_reset", "_mi_os_commit_ex", "mi_os_page_align_areax"], cost=20,
                   bounds="any range, any delay value, decommit or reset mode")]
 
@@ -657,7 +660,9 @@ def lists_obs(prefix):
 
 
 def c02():
-    return lists_obs("C02") + page_obs("C02", [E_COLLECT, E_MALLOC], sizes=((32, 5),), flavours=("release",))
+    return lists_obs("C02") + page_obs("C02", [E_COLLECT, E_MALLOC], sizes=((32, 5),), flavours=("release",)) + [
+        ar_ob("C02.abandon_bit", "h_abandon_bit", cost=30, funcs=["_mi_arena_segment_clear_abandoned", "_mi_arena_segment_mark_abandoned", "_mi_bitmap_unclaim", "_mi_bitmap_claim"],
+              bounds="reclaim-on-free ownership decision: one arena of 8 blocks, abandoned bitmap word under interference")]
 
 
 PROPS["C02"] = dict(
@@ -682,4 +687,91 @@ PROPS["C08"] = dict(
     outside="the bounded-memory conclusion for producer/consumer workloads is the hand composition of 'no remote free is lost' + 'full pages return to their queue' + periodic drains; the NO_DELAYED_FREE flag invariant of types.h is not machine-checked",
     assumptions=LRG_ASSUME + PAGE_STUBS + QUEUE_STUBS,
     trusted=["lists_rg.c", "queue_layer.c", "page_layer.c"],
+)
+
+
+# ------------------------------------------------------------------------------------------------
+# C09 abandonment (arena_layer.c: arena-abandon.c is part of arena.c)
+LOCK_REPL = {"mi_lock_try_acquire": "stub_lock_try_acquire", "mi_lock_acquire": "stub_lock_acquire", "mi_lock_release": "stub_lock_release"}
+
+
+def c09():
+    obs = [
+        ar_ob("C09.abandon_bit", "h_abandon_bit", cost=30, funcs=["_mi_arena_segment_clear_abandoned", "_mi_arena_segment_mark_abandoned", "_mi_bitmap_unclaim", "_mi_bitmap_claim", "mi_arena_memid_indices"],
+              bounds="one arena of 8 blocks, any block, abandoned bitmap word under interference (<= 2 arbitrary rewrites by other threads between the atomic operations)"),
+        ar_ob("C09.abandon_at", "h_abandon_at", cost=30, funcs=["mi_arena_segment_clear_abandoned_at", "_mi_bitmap_unclaim", "_mi_bitmap_claim", "mi_arena_block_start"],
+              bounds="one arena block holding a segment of the same or another sub-process, marked or not"),
+    ]
+    for ln, tg in ((1, 0), (2, 1), (2, 0), (3, 1), (3, 2), (1, 1), (0, 0)):
+        obs.append(ar_ob("C09.abandon_os.len%d_t%d" % (ln, tg), "h_abandon_os", defines=["LISTLEN=%d" % ln, "TARGET=%d" % tg], replace=LOCK_REPL, cost=20,
+                         funcs=["mi_arena_segment_os_clear_abandoned", "mi_arena_segment_os_mark_abandoned", "_mi_arena_segment_clear_abandoned"],
+                         bounds="abandoned OS list of %d segments, reclaiming entry %d (%s)" % (ln, tg, "not on the list" if tg >= ln else "on the list")))
+    obs += lists_obs("C09")[:1]
+    return obs
+
+
+PROPS["C09"] = dict(
+    obligations=c09,
+    bounds="abandonment markers: one arena bitmap word under interference; OS abandoned list of 0-3 segments; sub-process filter; remote free into a page (as C02)",
+    outside="whole thread exit (mi_thread_done call order), mi_segment_reclaim / mi_segment_check_free / mi_segment_abandon on the slice map (segment lemmas not built: see DESIGN.md), live block contents across abandonment",
+    assumptions=ARENA_STUBS + ["mi_lock_*: ghost boolean (try_acquire may fail); interference on the abandoned bitmap word: arbitrary rewrites"],
+    trusted=["arena_layer.c"],
+)
+
+
+# ------------------------------------------------------------------------------------------------
+# segment commit/purge lemmas (segment_layer.c): C13, C07, part of C18
+SEG_STUBS = ["_mi_os_commit may refuse on every call; _mi_os_purge decommits or resets (nondeterministic); ghost set of OS-committed commit blocks",
+             "segment state: commit and purge masks symbolic inside a 16-block window that crosses a mask-field boundary (blocks 56..71), purge subset of commit, rest of the segment uncommitted; clock non-decreasing; options symbolic"]
+
+
+def sg_ob(id, entry, **kw):
+    kw.setdefault("unwind", 20)
+    kw.setdefault("unwindset", ["wfield.0:18", "mask_from.0:10", "_mi_commit_mask_next_run.0:66", "_mi_commit_mask_next_run.1:10", "_mi_commit_mask_next_run.2:66", "_mi_commit_mask_next_run.3:20",
+                                "_mi_commit_mask_committed_size.0:10", "_mi_commit_mask_committed_size.1:70", "mi_segment_try_purge.0:12", "h_next_run.0:76", "h_next_run.1:20"])
+    kw.setdefault("timeout", 900)
+    kw.setdefault("native_replay", False)
+    return O(id, "segment_layer.c", entry, **kw)
+
+
+def seg_obs(prefix, which):
+    tab = {
+        "commit_mask": ("h_commit_mask", ["mi_segment_commit_mask", "mi_commit_mask_create", "_mi_align_up", "_mi_align_down"], "any slice-or-finer range inside a segment, conservative and liberal rounding"),
+        "seg_commit": ("h_seg_commit", ["mi_segment_commit", "mi_segment_ensure_committed", "mi_segment_commit_mask", "mi_commit_mask_set", "mi_commit_mask_clear", "mi_commit_mask_all_set", "mi_commit_mask_any_set"], "masks symbolic in a 16-block window, any block range inside it, OS may refuse"),
+        "seg_purge": ("h_seg_purge", ["mi_segment_purge", "mi_segment_commit_mask", "mi_commit_mask_clear"], "masks symbolic in a 16-block window, any block range inside it"),
+        "try_purge": ("h_try_purge", ["mi_segment_try_purge", "_mi_commit_mask_next_run", "mi_segment_purge"], "purge mask symbolic in a 16-block window crossing a field boundary, any expiry/clock, forced or not"),
+        "next_run": ("h_next_run", ["_mi_commit_mask_next_run"], "mask symbolic in a 16-block window crossing a field boundary, any start index"),
+    }
+    return [sg_ob("%s.%s" % (prefix, w), tab[w][0], funcs=tab[w][1], bounds=tab[w][2], cost=60) for w in which]
+
+
+def c13():
+    # (mi_segment_commit / mi_segment_purge / mi_segment_try_purge harnesses exist in segment_layer.c but are not registered:
+    #  they did not reach a trustworthy verdict within the session, see DESIGN.md section 6)
+    return seg_obs("C13", ["commit_mask", "next_run"]) + [
+        arena_free_ob("C13"), arena_alloc_ob("C13"),
+        os_ob("C13.page_align", "h_page_align", funcs=["mi_os_page_align_areax", "_mi_align_up", "_mi_align_down"], cost=20, bounds="any address and size"),
+        os_ob("C13.os_purge", "h_purge", funcs=["_mi_os_purge_ex", "mi_os_decommit_ex", "_mi_os_reset", "_mi_os_commit_ex"], cost=20, bounds="any range, decommit or reset mode, any delay")] + arena_expiry_ob("C13")[:2]
+
+
+PROPS["C13"] = dict(
+    obligations=c13,
+    bounds="all option values symbolic (purge delay, decommit vs reset, eager commit) in every lemma; segment masks in a 16-block window; arenas of 8 blocks",
+    outside="the span/slice-map side (a used span is covered by the commit mask; purge_mask and used spans disjoint) is the composition of seg_commit ('what is put to use leaves the purge schedule') with span allocation, which is not machine-checked; pairwise whole-allocator runs per option",
+    assumptions=SEG_STUBS + ARENA_STUBS + OS_STUBS,
+    trusted=["segment_layer.c ghost committed set", "arena_layer.c", "os_layer.c"],
+)
+
+
+def c07():
+    return os_roundtrip_obs("C07") + [arena_alloc_ob("C07"),
+        os_ob("C07.os_purge_commit", "h_purge", funcs=["_mi_os_commit_ex", "_mi_os_purge_ex"], cost=20, bounds="commit/purge with refusing OS")]
+
+
+PROPS["C07"] = dict(
+    obligations=c07,
+    bounds="every OS answer symbolic in: one OS allocation+free round trip, one segment commit (16-block window), one arena block claim with commit (8 blocks)",
+    outside="span allocation undo (mi_segment_span_allocate / mi_segments_page_find_and_allocate), segment metadata commit failure in mi_segment_os_alloc, thread metadata allocation failure, _mi_malloc_generic retry: the slice-map lemmas were not built (DESIGN.md); crash-freedom of whole workloads under fault injection",
+    assumptions=OS_STUBS + SEG_STUBS + ARENA_STUBS,
+    trusted=["os_layer.c", "segment_layer.c", "arena_layer.c"],
 )
